@@ -204,6 +204,8 @@ pub fn small_layout(r: &mut Rng, top_ok: bool, near_top_ok: bool) -> Layout {
             2 if !cfg!(miri) => 4096,
             3 if !cfg!(miri) => 4097 + r.below(200) as u128,
             4 => 8,
+            // transfer magnitude: now and then a region longer than 64 KiB
+            5 if !cfg!(miri) && r.chance(1, 5) => 0x10000 + 1 + r.below(5000) as u128,
             _ => 1 + r.below(if cfg!(miri) { 60 } else { 300 }) as u128,
         };
         regs.push((cur, l));
